@@ -126,6 +126,7 @@ def run(ctx):
     from checks import bcalccheck
     bcalccheck.run_cases(ctx, bcalccheck.additive_cases(ctx, ('Add', 'Sub')), 'catalogue-additive')
     bcalccheck.repo_suite(ctx, {'Add', 'Sub', 'Neg', 'Abs'})
+    bcalccheck.dep_canonical(ctx, bcalccheck.DEP['C03'])
 
 
 def replay(ctx, rp):
